@@ -1052,7 +1052,10 @@ class Gen:
     cur = []
     cmin = None
     for (rk, p, srcs) in comb_targets:
-      new = not cur or rng.random() < 0.45 or "forblock" in p or (cur and "forblock" in cur[-1][0])
+      new = not cur or rng.random() < 0.45
+      if not new and ("forblock" in p or "forblock" in cur[-1][0]):
+        # a for loop normally has its block to itself; p_for_mixed lets it share one with plain statements and temporaries
+        new = not (k.get("p_for_mixed") and rng.random() < k["p_for_mixed"])
       # a chunk must not span an instance (its inputs sit at rank-0.5, its outputs are read above rank) nor a
       # connect-driven part (its net block sits between the writers below and the readers above its rank)
       if cur and (any(cmin < b <= rk for b in breaks) or any(cmin < c < rk for c in self.connect_ranks)):
@@ -1078,9 +1081,14 @@ class Gen:
           fb = p["forblock"]
           stmts += fb[1] if fb[0] == "seq" else [fb]
           continue
-        if srcs and rng.random() < k.get("p_tmp", 0):
+        loopn = [q["forblock"] for (q, _) in tg if "forblock" in q] if k.get("p_tmp_loopname") else []
+        if srcs and rng.random() < (0.85 if loopn else k.get("p_tmp", 0)):
           # block-local temporary: t = <explicit expr>; target @= f(t)
           tw = rng.choice(SMALLW + [p["w"]])
+          if loopn and rng.random() < 0.6:
+            # beside a for loop the temporary may end up sharing the loop index's name: give it the width of an index, too
+            fl = [st for st in (loopn[0][1] if loopn[0][0] == "seq" else [loopn[0]]) if st[0] == "for"][0]
+            tw = max(1, (max(fl[2], fl[3]) ).bit_length())
           tn = f"t{bi}_{ntmp}"; ntmp += 1
           tv2 = None
           if rng.random() < k.get("p_tmp_chain", 0):
@@ -1116,6 +1124,8 @@ class Gen:
           stmts.append(["=", p, e2])
         else:
           stmts += self.assign_stmts(p, srcs, "comb")
+      if k.get("p_tmp_loopname") and rng.random() < k["p_tmp_loopname"]:
+        stmts = self.share_loop_name(stmts)
       blk = {"name": f"up_{bi}", "kind": "comb", "stmts": stmts}
       if len(stmts) == 1 and stmts[0][0] == "=" and "." not in stmts[0][1]["path"] and not stmts[0][1]["steps"] \
          and expr_refs(stmts[0][2], []) and rng.random() < k.get("p_lambda", 0):
@@ -1259,6 +1269,42 @@ class Gen:
         # keep a mention of `s` in the block itself (the monitors find the host component through the block's closure)
         b["emit_stmts"] = [["raw", "s.reset"]] + b["emit_stmts"]
     if not funcs: cls.pop("funcs", None)
+
+  def share_loop_name(self, stmts):
+    """legal python: a block-local temporary and the index of a LATER (or earlier) for loop of the same block share one name
+    ( i = s.sel; s.x @= s.in_[i]; for i in range(4): ... ).  Every use of the temporary stays on its own side of the loop."""
+    fors = [j for j, st in enumerate(stmts) if st[0] == "for"]
+    if not fors: return stmts
+    f = fors[0]; var = stmts[f][1]
+    def names_in(sts):
+      out = []
+      def walk(o):
+        if isinstance(o, list):
+          if len(o) >= 2 and o[0] == "tmp": out.extend(o[1] if isinstance(o[1], list) else [o[1]])
+          if len(o) == 3 and o[0] == "tv": out.append(o[1])
+          for x in o: walk(x)
+        elif isinstance(o, dict):
+          for x in o.values(): walk(x)
+      walk(sts); return out
+    sides = [("before", stmts[:f], stmts[f:])] + ([("after", stmts[fors[-1] + 1:], stmts[:fors[-1] + 1])] if self.k.get("tmp_after_loop", True) else [])
+    self.rng.shuffle(sides)
+    for side, mine, other in sides:
+      cands = [n for n in dict.fromkeys(names_in(mine)) if n not in names_in(other) and n != var]
+      if not cands: continue
+      tn = self.rng.choice(cands)
+      def ren(o):
+        if isinstance(o, list):
+          if len(o) >= 2 and o[0] == "tmp":
+            return ["tmp", ([var if x == tn else x for x in o[1]] if isinstance(o[1], list) else (var if o[1] == tn else o[1]))] + [ren(x) for x in o[2:]]
+          if len(o) == 3 and o[0] == "tv" and o[1] == tn: return ["tv", var, o[2]]
+          return [ren(x) for x in o]
+        if isinstance(o, dict): return {a: ren(b) for a, b in o.items()}
+        return o
+      mine2 = ren(mine)
+      self.design.setdefault("stats", {}).setdefault("tmp_shares_loop_name_" + side, 0)
+      self.design["stats"]["tmp_shares_loop_name_" + side] += 1
+      return (mine2 + stmts[f:]) if side == "before" else (stmts[:fors[-1] + 1] + mine2)
+    return stmts
 
   def for_block(self, sg, srcs):
     """for i in range(...): s.lst[i] @= f(i)  - list-element / loop-variable-slice reads, loop variable as operand"""
